@@ -19,7 +19,7 @@ RULE = ("one case = one generated handler program (2-6 event names, 3-10 handler
         "key/event/method, defer a post through a delay, add/reset/remove/run_now a named delay whose callback "
         "posts, flip a switch, return False/dict; plain, boolean, relay and queue (post_queue/post_queue_async, "
         "optionally with a wait) events on the same event names; priorities distinct, "
-        "tied or flat; registered kwargs colliding with posted ones; conditions) run in 1-3 episodes on one booted "
+        "tied or flat, plus '.N' event suffixes and @event_handler(relative_priority)-decorated callables; registered kwargs colliding with posted ones; conditions) run in 1-3 episodes on one booted "
         "machine (registration history carries over), each with a random registration history and 3-12 roots posted "
         "from MPF's boot sequence, the driver, a plain loop timer, a DelayManager callback, an untimed/timed switch "
         "handler, an asyncio task, a queue-event handler, handlers (depth <= 5) and completion callbacks, several "
@@ -36,7 +36,8 @@ PROBES = ["delivery", "callback", "episode_boundary", "root_from_boot", "root_fr
           "sibling_before_waiting", "rm_method_multi_event", "replace_hit", "run_now_in_handler",
           "run_now_in_nested_event", "run_now_outside_handler", "post_in_run_now", "named_delay_replaced",
           "named_delay_removed", "queue_post", "queue_post_async", "queue_delivery", "queue_kw_override",
-          "queue_cond_pass", "queue_second_handler", "queue_wait", "queue_callback"]
+          "queue_cond_pass", "queue_second_handler", "queue_wait", "queue_callback",
+          "relative_priority_lifts_over_existing", "dot_priority"]
 REAL = ["mpf.core.events.EventManager (add/replace/remove handlers, post/post_boolean/post_relay/post_queue, "
         "process_event_queue)", "mpf.core.delays.DelayManager", "mpf.core.switch_controller.SwitchController "
         "(untimed + timed handlers)", "mpf.core.placeholder_manager (handler conditions)", "MachineController boot"]
@@ -125,6 +126,8 @@ def _gen_add(g, where):
           "once": g.prio_mode == "distinct" or ch.flag("once", 0.6), "oid": g.next_oid()}
     if ch.flag("hascond", 0.3):
         op["cond"] = ch.pick("cond", CONDS)
+    if ch.flag("hasdot", 0.15):
+        op["dot"] = ch.pick("dot", [1, 2, 5])        # registered as "event.N": N is added to the priority
     return op
 
 
@@ -202,7 +205,10 @@ def plan(ch, tier):
             nm = ch.pick("dpair.name", DELAY_NAMES)
             script.insert(ch.choice("dpair.pos", len(script) + 1), _gen_dadd(g, nm))
             script.append({"op": "drun", "name": nm})
-        handlers[hid] = {"script": script, "ret": ch.weighted("ret", RETS)}
+        # some callables are decorated with mpf.core.events.event_handler(relative_priority): the relative
+        # priority is added to the priority of every registration of that callable
+        handlers[hid] = {"script": script, "ret": ch.weighted("ret", RETS),
+                         "rel": ch.weighted("rel", [(0, 6), (10, 1.5), (5, 1), (1, 1), (-3, 0.5)])}
     ops = []
     # 1-3 episodes on one booted machine: the registry history carries over, the post/invocation budgets are
     # reset at the episode boundary (a driver op that first waits for the loop to go idle)
@@ -346,6 +352,14 @@ def execute(ctx, plan):
 
         def __repr__(self):
             return "<%s@%s>" % (self.hid, self.event)
+
+    def make_callable(hid, event):
+        c = Callable(hid, event)
+        rel = handlers[hid].get("rel", 0)
+        if rel:
+            from mpf.core.events import event_handler
+            c = event_handler(rel)(c)
+        return c
 
     def on_qhandler(hid, event, kwargs, queue):
         """Delivery of a queue event (runs in the queue event's own task = outside any plain dispatch)."""
@@ -547,11 +561,20 @@ def execute(ctx, plan):
                 if any(p.event == ev for p in model.cur.posted) or any(p.event == ev for q in model.stack for p in q):
                     ctx.probe("post_then_add_in_handler")
             kw = unique_kw(ev, op["hid"], op["kw"])
-            reg = model.add(ev, op["hid"], op["prio"], kw, op["cond"])
-            ctx.log("add", reg.rid, ev, op["hid"], op["prio"], sorted(kw.items()),
+            # effective priority = priority argument + ".N" suffix of the event string + relative_priority of an
+            # @event_handler-decorated callable
+            dot = op.get("dot", 0)
+            rel = handlers[op["hid"]].get("rel", 0)
+            eff = op["prio"] + dot + rel
+            if rel and any(op["prio"] + dot <= r.prio < eff for r in model.registry.get(ev, [])):
+                ctx.probe("relative_priority_lifts_over_existing")
+            if dot:
+                ctx.probe("dot_priority")
+            reg = model.add(ev, op["hid"], eff, kw, op["cond"])
+            ctx.log("add", reg.rid, ev, op["hid"], op["prio"], dot, rel, sorted(kw.items()),
                     cond_to_string(op["cond"]) if op["cond"] else None, st["where"][0], t=loop.time())
-            evs = ev + ("{%s}" % cond_to_string(op["cond"]) if op["cond"] else "")
-            reg.key = events.add_handler(evs, Callable(op["hid"], ev), op["prio"], **kw)
+            evs = ev + (".%d" % dot if dot else "") + ("{%s}" % cond_to_string(op["cond"]) if op["cond"] else "")
+            reg.key = events.add_handler(evs, make_callable(op["hid"], ev), op["prio"], **kw)
         elif k == "replace":
             if op["oid"] in st["once"] or len(model.regs) - st["reg_base"] >= MAX_REGS:
                 return
@@ -568,12 +591,12 @@ def execute(ctx, plan):
             waiting = list(model._waiting_posts(ev))
             if waiting and (not model.in_handler() or any(r.hid == op["hid"] for p in waiting for r in p.extra)):
                 return
-            reg = model.replace(ev, op["hid"], op["prio"], kw)
+            reg = model.replace(ev, op["hid"], op["prio"] + handlers[op["hid"]].get("rel", 0), kw)
             after = len([r for r in model.registry.get(ev, []) if r.hid == op["hid"]])
             if after <= before:
                 ctx.probe("replace_hit")
             ctx.log("replace", reg.rid, ev, op["hid"], op["prio"], sorted(kw.items()), st["where"][0], t=loop.time())
-            reg.key = events.replace_handler(ev, Callable(op["hid"], ev), op["prio"], **kw)
+            reg.key = events.replace_handler(ev, make_callable(op["hid"], ev), op["prio"], **kw)
         elif k == "rm_key":
             if op["mode"] == "any":
                 cands = model.regs
